@@ -103,7 +103,7 @@ def intentCall (env : Env) (host : Val) : CmdName → List Val → Intent
     | .error _ => .none
     | .ok xs => match allStr xs with
       | none => .none
-      | some ss => .register (upperCodes env ss) (addrCode (host, port))
+      | some ss => if registerRefuses env (host, port) then .none else .register (upperCodes env ss) (addrCode (host, port))
   | .unregister, [port] => .unregister (addrCode (host, port))
   | _, _ => .none
 
@@ -247,7 +247,9 @@ theorem cmdRegister_good (env : Env) (pruning : Int) (sv : Services) (host names
     | none => exact good_idle pruning now sv h
     | some ss =>
       dsimp only
-      rw [if_pos (hashable_true _)]
+      by_cases hr : registerRefuses env (host, port) = true
+      · rw [if_pos hr, if_pos hr]; exact good_idle pruning now sv h
+      rw [if_neg hr, if_neg hr, if_pos (hashable_true _)]
       obtain ⟨i1, _, e1, v1⟩ := regLoop_spec env (host, port) now ss sv h
       exact ⟨i1, e1, fun n x => by rw [v1]; rfl⟩
 
